@@ -112,6 +112,11 @@ func (db *DB) Merge() error {
 				if err != nil {
 					return err
 				}
+				// 重写文件的 id 不允许触及未参与 merge 的数据文件, 否则加载时会将其覆盖
+				// 未写入完成标识, 临时目录会被忽略并在下次 merge 时清理
+				if mergeDB.activeFile.ID >= nonMergeFileId {
+					return ErrMergeOutputTooLarge
+				}
 				// merge的过程中顺便将构建索引所需信息写入 Hint 文件中, 用于后续重启时加速构建索引
 				if err := hintFile.WriteHintRecord(logRecord.Key, db.hintPos, pos); err != nil {
 					return err
